@@ -1,6 +1,6 @@
 """C12 -- time steps follow the documented adaptive rule and its bounds."""
 from pyvc.harness import Unit
-from checks import update_common as uc
+from checks import update_common as uc, init_common as ic
 
 PROPERTY = "C12"
 LEVEL = "proof"
@@ -32,6 +32,8 @@ def units():  # noqa: F811
         Unit("update[no screening, dynamic A]", F + "update", _upd(False, True), props=["C12"], timeout=900),
         Unit("update[screening, static A]", F + "update", _upd(True, False), props=["C12"], timeout=900),
         Unit("update[screening, dynamic A]", F + "update", _upd(True, True), props=["C12"], timeout=900),
+        Unit("TDGLSolver.__init__[no seed]", F + "__init__", lambda m=None: ic.run_init(m, prefixes=("C12.",)), props=["C12"], timeout=900),
+        Unit("TDGLSolver.__init__[seed solution]", F + "__init__", lambda m=None: ic.run_init(m, prefixes=("C12.",), seeded=True), props=["C12"], timeout=900),
     ]
 
 
@@ -42,6 +44,8 @@ def replay_scope(unit, obl):
 
 def replay(unit, obl):
     from checks import update_native
+    if unit.startswith("TDGLSolver.__init__"):
+        return update_native.replay_init(unit, obl)
     return update_native.replay(unit, obl)
 
 
